@@ -104,32 +104,32 @@ theorem tuStartTrigCleanup_ok (rec : Rec) (hrec : RecOK rec) (x : TU) (hx : TUOK
 
 /-- the helper left the source side alone -/
 def Frame (x y : TU) : Prop :=
-  y.s = x.s ∧ y.st.srcRunning = x.st.srcRunning ∧ y.st.trigStarted = x.st.trigStarted
+  y.s = x.s ∧ y.st.srcRunning = x.st.srcRunning
 
-theorem Frame.refl (x : TU) : Frame x x := ⟨rfl, rfl, rfl⟩
+theorem Frame.refl (x : TU) : Frame x x := ⟨rfl, rfl⟩
 theorem Frame.trans {x y z : TU} (h1 : Frame x y) (h2 : Frame y z) : Frame x z :=
-  ⟨h2.1.trans h1.1, h2.2.1.trans h1.2.1, h2.2.2.trans h1.2.2⟩
+  ⟨h2.1.trans h1.1, h2.2.trans h1.2⟩
 
 theorem frame_join (x : TU) : Frame x (tuJoin x) := by
-  unfold tuJoin; split <;> exact ⟨rfl, rfl, rfl⟩
+  unfold tuJoin; split <;> exact ⟨rfl, rfl⟩
 
 theorem frame_joinTrig (x : TU) (e : Option Nat) : Frame x (tuJoinTrig x e) := by
-  cases e <;> simp only [tuJoinTrig] <;> exact Frame.trans ⟨rfl, rfl, rfl⟩ (frame_join _)
+  cases e <;> simp only [tuJoinTrig] <;> exact Frame.trans ⟨rfl, rfl⟩ (frame_join _)
 
 theorem frame_startTrigCleanup (rec : Rec) (x : TU) : Frame x (tuStartTrigCleanup rec x) := by
   simp only [tuStartTrigCleanup]
   split
-  · exact Frame.trans ⟨rfl, rfl, rfl⟩ (frame_joinTrig _ _)
-  · exact ⟨rfl, rfl, rfl⟩
+  · exact Frame.trans ⟨rfl, rfl⟩ (frame_joinTrig _ _)
+  · exact ⟨rfl, rfl⟩
 
 theorem frame_stopTrig (rec : Rec) (x : TU) : Frame x (tuStopTrig rec x) := by
   simp only [tuStopTrig]
   split
   · split
     · split
-      · exact Frame.trans ⟨rfl, rfl, rfl⟩ (frame_startTrigCleanup _ _)
-      · exact ⟨rfl, rfl, rfl⟩
-    · exact ⟨rfl, rfl, rfl⟩
+      · exact Frame.trans ⟨rfl, rfl⟩ (frame_startTrigCleanup _ _)
+      · exact ⟨rfl, rfl⟩
+    · exact ⟨rfl, rfl⟩
   · exact Frame.refl x
 
 theorem frame_requestStop (rec : Rec) (x : TU) (h : x.st.srcRunning = false) : Frame x (tuRequestStop rec x) := by
@@ -139,17 +139,17 @@ theorem frame_requestStop (rec : Rec) (x : TU) (h : x.st.srcRunning = false) : F
   · rw [if_neg hs]
     dsimp only
     rw [if_neg (by simp [h])]
-    exact Frame.trans ⟨rfl, rfl, rfl⟩ (frame_stopTrig _ _)
+    exact Frame.trans ⟨rfl, rfl⟩ (frame_stopTrig _ _)
 
 theorem frame_onTrigNext (rec : Rec) (x : TU) (h : x.st.srcRunning = false) : Frame x (tuOnTrigNext rec x) := by
   unfold tuOnTrigNext
   dsimp only
   by_cases hr : x.st.ready = true
   · rw [if_pos hr]
-    exact Frame.trans ⟨rfl, rfl, rfl⟩ (frame_startTrigCleanup _ _)
+    exact Frame.trans ⟨rfl, rfl⟩ (frame_startTrigCleanup _ _)
   · rw [if_neg hr]
     have h2 := frame_requestStop rec { x with st := { x.st with trigRunning := false } } h
-    exact ⟨h2.1, h2.2.1, h2.2.2⟩
+    exact ⟨h2.1, h2.2⟩
 
 theorem tuStopTrig_ok (rec : Rec) (hrec : RecOK rec) (ph0 : Ph) (x : TU) (hx : TUOK ph0 x) (hsrc : x.st.src = true) :
     TUOK ph0 (tuStopTrig rec x) := by
